@@ -46,7 +46,10 @@ Fixpoint ilog2_from (fuel:nat) (e:Z) (x:Q) : Z :=
   | O => e
   | S n => if Qle_bool (pow2 e) x then e else ilog2_from n (e - 1) x
   end.
-Definition ilog2 (x:Q) : Z := ilog2_from (Z.to_nat 2100) 1023 (Qabs x).
+(* the search starts just above the exponent estimated from the bit lengths of numerator and denominator (the true exponent is that
+   estimate or one less), never above 1023 *)
+Definition ilog2_start (x:Q) : Z := Z.min 1023 (Z.log2 (Z.abs (Qnum x)) - Z.log2 (Zpos (Qden x)) + 1).
+Definition ilog2 (x:Q) : Z := ilog2_from (Z.to_nat 2100) (ilog2_start x) (Qabs x).
 Definition ulp_exp (x:Q) : Z := Z.max (ilog2 x) (-1022) - 52.
 Definition ulp (x:Q) : Q := pow2 (ulp_exp x).
 
@@ -121,7 +124,8 @@ Lemma ulp_small x b : (-1022 <= b)%Z -> Qabs x < pow2 (b + 1) -> ulp x <= pow2 (
 Proof.
   intros Hb H. unfold ulp, ulp_exp. apply pow2_mono.
   assert (I : (ilog2 x <= b)%Z).
-  { unfold ilog2. destruct (ilog2_from_le (Z.to_nat 2100) 1023 (Qabs x) b) as [X|X]; [|rewrite Z2Nat.id in X by lia; lia|exact X].
+  { unfold ilog2. assert (S : (ilog2_start x <= 1023)%Z) by (unfold ilog2_start; lia).
+    destruct (ilog2_from_le (Z.to_nat 2100) (ilog2_start x) (Qabs x) b) as [X|X]; [|rewrite Z2Nat.id in X by lia; lia|exact X].
     intros e' L. pose proof (pow2_mono (b + 1) e' ltac:(lia)). lra. }
   lia.
 Qed.
